@@ -562,3 +562,28 @@ Proof.
   exists dc, du, (xb_bfin p true f0 f1 h). repeat split; try assumption.
   all: apply (xb_same p true f0 f1 h Hh).
 Qed.
+
+(* the compressed FILE: behind the header, palette and font blocks there is exactly one stream the XBin specification's
+   decoder accepts - every row decodes to the (character, attribute) pairs of the uncompressed encoding, every run 1..64 cells,
+   no run crosses a row, and no byte follows the last row (a SAUCE record is appended behind it by with_sauce only) *)
+Lemma xb_file_spec_conformant p two pg0 pg1 f0 f1 fh dc : xb_shape_g p two pg0 pg1 f0 f1 fh ->
+  save_xbo true p = Ok dc ->
+  exists D, dc = xb_file p two f0 f1 fh true D /\
+            XBin.xb_spec_rows (Z.to_nat (p_w p)) (length (p_rows p)) D =
+            Some (map (map (fun c => (c_ch c, encode_attr (p_ice p) (xb_pages two pg0 pg1) c))) (p_rows p), []).
+Proof.
+  intros Hs Hc. pose proof Hs as (Hb & _). pose proof Hb as (Hcommon & _). destruct Hcommon as (Hrect & _).
+  rewrite (xb_saveo p two pg0 pg1 f0 f1 fh true Hs) in Hc.
+  destruct (xb_data_section true (p_ice p) (xb_pages two pg0 pg1) (p_rows p)) as [cb|e|s0] eqn:Ec; cbn [bind] in Hc; try discriminate.
+  injection Hc as <-. exists cb. split; [reflexivity|].
+  unfold xb_data_section in Ec.
+  destruct (XBin.compress_backtrack (xb_pages two pg0 pg1) (ice6 (p_ice p)) (map (map cell6) (p_rows p))) as [cb'|] eqn:E6; [|discriminate].
+  injection Ec as ->.
+  assert (Hw6 : Forall (fun r => length r = Z.to_nat (p_w p)) (map (map cell6) (p_rows p))).
+  { apply Forall_forall. intros r' Hr'. apply in_map_iff in Hr'. destruct Hr' as (r & <- & Hr).
+    rewrite map_length. pose proof (rect_same_width p Hrect) as Hw. rewrite Forall_forall in Hw. apply Hw, Hr. }
+  pose proof (XBinProofs.compress_with_sound_proof XBin.bt_oracle _ _ _ _ _ Hw6 E6) as Hsp.
+  rewrite map_length in Hsp. rewrite Hsp. f_equal. f_equal.
+  rewrite map_map. apply map_ext. intro r. rewrite map_map. apply map_ext. intro c.
+  unfold XBin.enc. rewrite encode_attr_6. reflexivity.
+Qed.
